@@ -24,6 +24,7 @@ type ScopeWS struct {
 	GlobalUses map[string][]GSite // every free-name occurrence per name
 	Loose      bool               // arbitrary files (repository testdata), not generator output
 	DeclMember bool               // Loose, and every member chain in the files is declared down to its last key
+	Late       string             // a file that is created (watched-file event) only after the server has loaded the rest; "" = none
 	Roots      []string           // workspace folders (sibling directories under the scratch root; the first is the main folder); nil = one folder
 }
 
